@@ -46,6 +46,8 @@ GEN = {
     "errexit": "Gen_NestedExec_errexit.cfg",
     "exec": "Gen_NestedExec_exec.cfg",
     "nest": "Gen_NestedExec_nest.cfg",
+    "pos": "Gen_NestedExec_pos.cfg",
+    "sete": "Gen_NestedExec_sete.cfg",
 }
 
 # gen: (name, K, mode, every)   mode sim|real; every: replay every n-th program
@@ -53,15 +55,18 @@ PLAN = {
     "quick": {
         "laws": [("MC_NestedExec_laws.cfg", 3)],
         "gen": [("evalloop", 5, "sim", 1), ("dotret", 5, "sim", 1), ("exit", 5, "sim", 1), ("errors", 4, "sim", 1),
-                ("errexit", 5, "sim", 1), ("nest", 6, "sim", 1), ("exec", 3, "real", 1), ("exec", 4, "sim", 1),
-                ("exit", 4, "real", 12), ("dotret", 4, "real", 8)],
+                ("errexit", 5, "sim", 1), ("nest", 6, "sim", 1), ("pos", 5, "sim", 1), ("sete", 5, "sim", 1),
+                ("exec", 3, "real", 1), ("exec", 4, "sim", 1),
+                ("exit", 4, "real", 12), ("dotret", 4, "real", 8), ("pos", 4, "real", 4)],
         "variants": 2, "random": (6000, 30), "random_real": (300, 24), "jobs": 6,
     },
     "thorough": {
         "laws": [("MC_NestedExec_laws.cfg", 4)],
         "gen": [("evalloop", 6, "sim", 1), ("dotret", 6, "sim", 1), ("exit", 5, "sim", 1), ("errors", 5, "sim", 1),
-                ("errexit", 6, "sim", 1), ("nest", 7, "sim", 1), ("exec", 4, "real", 1), ("exec", 5, "sim", 1),
-                ("exit", 4, "real", 2), ("dotret", 4, "real", 2), ("errors", 4, "real", 8), ("evalloop", 4, "real", 1)],
+                ("errexit", 6, "sim", 1), ("nest", 7, "sim", 1), ("pos", 6, "sim", 1), ("sete", 6, "sim", 1),
+                ("exec", 4, "real", 1), ("exec", 5, "sim", 1),
+                ("exit", 4, "real", 2), ("dotret", 4, "real", 2), ("errors", 4, "real", 8), ("evalloop", 4, "real", 1),
+                ("pos", 4, "real", 1), ("sete", 4, "real", 2)],
         "variants": 3, "random": (60000, 40), "random_real": (3000, 30), "jobs": 8,
     },
 }
@@ -72,10 +77,10 @@ def compact(p):
     out = []
     for t in p:
         s = t["k"]
-        if t["k"] in ("mk", "brk", "cnt", "ret", "exit", "for", "trap", "dot", "dotmiss"):
+        if t["k"] in ("mk", "brk", "cnt", "ret", "exit", "for", "trap", "dot", "dotmiss", "setpp", "sete"):
             s += str(t["n"])
         if t["k"] in ("cmd", "def"):
-            s += ":" + t["s"]
+            s += ":" + t["s"] + (str(t["n"]) if t["n"] else "")
         if t["k"] == "exec":
             s += ":" + t["s"] + (str(t["n"]) if t["s"] == "found" else "")
         out.append(s)
@@ -95,6 +100,25 @@ def _cfg_with_k(cfg, k, wd):
     with open(name, "w") as f:
         f.write("\n".join(lines) + "\n")
     return name
+
+
+def _unify(exp_tr, exp_st, obs_tr, obs_st):
+    """The comparison of harness/g07 `matches0`: statuses <= -10 are symbols
+    bound consistently to one observed value in 1..255."""
+    e = [tuple(x) for x in exp_tr] + [(None, exp_st)]
+    o = [tuple(x) for x in obs_tr] + [(None, obs_st)]
+    if len(e) != len(o):
+        return False
+    bind = {}
+    for (em, es), (om, os_) in zip(e, o):
+        if em != om:
+            return False
+        if es <= -10:
+            if not 1 <= os_ <= 255 or bind.setdefault(es, os_) != os_:
+                return False
+        elif es != os_:
+            return False
+    return True
 
 
 class Stats:
@@ -192,7 +216,15 @@ def gen_and_replay(rep, wd, name, k, mode, every, st, variants, workers=4, jobs=
             for i, line in enumerate(vlib.read_ndjson(gen)):
                 if i in lost:
                     oks = [o for o in line["o"] if o["oc"] == "ok"]
+                    # a hang / crash: does it disappear when the notable input variants are avoided?
+                    ver2 = ver + ".redo"
+                    vlib.run_harness(PKG, ["run", "--in", gen, "--out", ver2, "--mode", mode, "--variants", v, "--jobs", 1,
+                                           "--tick", 2, "--only", i, "--avoid", 1], timeout=600)
+                    again = [x for x in vlib.read_ndjson(ver2) if not x.get("note")]
+                    os.remove(ver2)
+                    clean = len(again) == 1 and not again[0].get("lost") and not again[0].get("fails")
                     f = {"why": lost[i]["lost"], "e": -1, "t": -1, "tg": sorted({t for o in oks for t in o.get("tg", [])}),
+                         "feat": "blank-line-only-input" if clean else "",
                          "expected": oks[:1], "observed": {"oc": lost[i]["lost"]}}
                     nfail += 1
                     _violation(rep, "S->I", name, line["p"], f, mode)
@@ -296,8 +328,8 @@ def random_and_validate(rep, wd, n, size, mode, st, jobs=4, shards=6):
             obs_tr, exp_tr = rec["tr"], info["tr"]
             why = "rejected by Trace_NestedExec"
             traps = {0} | {i + 1 for i, t in enumerate(rec["p"]) if t["k"] == "trap"}
-            if rec["oc"] == "completed" and exp_tr and exp_tr[-1][0] in traps and exp_tr[:-1] == obs_tr \
-                    and rec["st"] == exp_tr[-1][1]:
+            if rec["oc"] == "completed" and exp_tr and exp_tr[-1][0] in traps \
+                    and _unify(exp_tr[:-1], exp_tr[-1][1], obs_tr, rec["st"]):
                 # everything before the EXIT trap action agrees, the final status is the $? it would have seen
                 why = "EXIT trap action not run"
             f = {"e": rec["e"], "t": rec["t"], "why": why, "tg": info.get("tg", []),
